@@ -1,4 +1,4 @@
 """C16 — eviction listener notifications are truthful and never duplicated."""
 from props import cachelib
 def run(ctx):
-    cachelib.run(ctx, "C16", [("listener", 6), ("capacity", 1), ("ttl", 1)], 3600, 90000, stress=150)
+    cachelib.run(ctx, "C16", [("listener", 6), ("capacity", 1), ("ttl", 1)], 3600, 60000, stress=150)
